@@ -63,6 +63,7 @@ def parse_res(s):
 def check_ts(style, pre, script, r, wanted=True):
     """the property on one signing operation; returns (theorem, expected, note) or None"""
     acc = ACCEPT_LEGACY if style == "legacy" else ACCEPT_RFC
+    acc = acc | {b for b in script if b.startswith("pad")}   # padK: a valid reply whose token is K bytes longer
     n = len(script)
     T = "Relic.Props.C10."
     if r["kind"] in ("panic", "crash"):
